@@ -213,11 +213,18 @@ func sync_runtime_notifyListAdd(l *notifyList) uint32 {
 	return latomic.AddUint32(&l.wait, 1) - 1
 }
 
+// notifyLess reports whether ticket a precedes ticket b, allowing for wrap-around.
+func notifyLess(a, b uint32) bool {
+	return int32(a-b) < 0
+}
+
 //go:linkname sync_runtime_notifyListWait sync.runtime_notifyListWait
 func sync_runtime_notifyListWait(l *notifyList, t uint32) {
 	st := getNotifyState(l)
 	st.mu.Lock()
-	for latomic.LoadUint32(&l.notify) == t {
+	// Ticket t has been notified once notify has moved past it; the counters
+	// wrap, so compare by signed difference (as runtime.notifyListWait does).
+	for !notifyLess(t, latomic.LoadUint32(&l.notify)) {
 		st.cond.Wait(&st.mu)
 	}
 	st.mu.Unlock()
@@ -238,7 +245,9 @@ func sync_runtime_notifyListNotifyOne(l *notifyList) {
 	st.mu.Lock()
 	if latomic.LoadUint32(&l.notify) != latomic.LoadUint32(&l.wait) {
 		latomic.AddUint32(&l.notify, 1)
-		st.cond.Signal()
+		// Each waiter waits for its own ticket: wake them all so the one whose
+		// ticket was just passed re-checks and returns.
+		st.cond.Broadcast()
 	}
 	st.mu.Unlock()
 }
